@@ -570,8 +570,45 @@ class Directed(Scenario):
                 if self.last_out and not self.dead:
                     self.peer_acks(sack=True)
 
+    def sub_probe_then_remote_fin(self):
+        """D24's situation: a size probe that was sent is lost and popped at the RTO while an earlier segment is
+        still out, so the re-segmented bytes wait unsent; then the remote closes."""
+        r = self.r
+        self.start(True, f"mtu={r.choice([1000, 1000, 1500])} probe_retx={r.choice([0, 0, 1])}" + r.choice(["", " nagle=0"]))
+        self.drop_rule = lambda d, n: d["type"] == 0 and d["plen"] > 528      # the path does not carry the probes
+        self.do("vs write 100")
+        self.do("vs poll")
+        self.do("vs write 600")
+        self.do("vs poll")
+        self.do("vs poll")
+        self.peer_acks()
+        self.do("vs poll")
+        self.do(f"vs write {r.choice([3000, 30000])}")
+        self.do("vs poll")
+        if r.random() < 0.3:
+            self.do("vs poll")
+        old_ack = self.peer_ack
+        if r.random() < 0.3:
+            self.peer_acks()
+            self.do("vs poll")
+        for _ in range(r.randrange(1, 3)):
+            self.to_next_timer(jitter=False)
+        self.inject(1, seq=self.peer_next, ack=r.choice([self.peer_ack, self.peer_ack, old_ack]))
+        self.do("vs poll")
+        for _ in range(r.randrange(1, 5)):
+            if self.dead:
+                break
+            self.to_next_timer()
+        if self.our_fin_seq is not None and not self.dead and r.random() < 0.7:
+            self.inject(2, ack=self.our_fin_seq)
+            self.do("vs poll")
+        for _ in range(r.randrange(0, 3)):
+            self.do(r.choice(["vs read 10000", "vs flush", "vs shutdown"]))
+
     def fam_teardown(self):
         r = self.r
+        if r.random() < 0.1:
+            return self.sub_probe_then_remote_fin()
         outgoing = r.random() < 0.7
         self.start(outgoing, r.choice(["", "wla=0", "inact=2000000000", "retx=2"]))
         target = r.choice(["est", "fw1", "fw1", "fw2", "la", "synack", "fw1_data_out"])
